@@ -60,7 +60,11 @@ class CrashNow(BaseException):
 
 
 class _CrashFile:
-    """write-mode file whose every write is one unbuffered, individually interruptible operation"""
+    """write-mode file that models Python's buffered writer: bytes passed to write() stay in a user-space buffer and
+    reach the disk only at flush(), at close(), or when the buffer exceeds 8 KiB; each of those disk writes is one
+    individually interruptible operation ("flush").  A kill discards whatever is still buffered."""
+
+    BUFSIZE = 8192
 
     def __init__(self, fs, path, mode):
         self._fs = fs
@@ -68,34 +72,48 @@ class _CrashFile:
         fs._op("open", path)
         self._f = fs._real_open(path, mode if "b" in mode else mode + "b", buffering=0)
         self._text = "b" not in mode
+        self._buf = bytearray()
         self.closed = False
         self.name = path
         self.mode = mode
+
+    def _to_disk(self, why):
+        if not self._buf:
+            return
+        data = bytes(self._buf)
+        act = self._fs._op("flush", self._path, len(data))
+        if act == "half":
+            self._f.write(data[: len(data) // 2])
+            self._fs.crashed = True
+            raise CrashNow()
+        self._f.write(data)
+        del self._buf[:]
 
     def write(self, data):
         if self._fs.crashed:
             raise CrashNow()
         if self._text and isinstance(data, str):
             data = data.encode("utf-8")
-        act = self._fs._op("write", self._path, len(data))
-        if act == "half":
-            self._f.write(data[: len(data) // 2])
-            self._fs.crashed = True
-            raise CrashNow()
-        self._f.write(data)
+        self._fs._note("write", self._path, len(data))
+        self._buf += data
+        if len(self._buf) > self.BUFSIZE:
+            self._to_disk("buffer full")
         return len(data)
 
     def flush(self):
         if self._fs.crashed:
             return
-        self._fs._op("flush", self._path)
+        self._to_disk("flush")
 
     def close(self):
         if not self.closed:
             self.closed = True
-            if not self._fs.crashed:
-                self._fs._op("close", self._path)
-            self._f.close()
+            try:
+                if not self._fs.crashed:
+                    self._to_disk("close")
+                    self._fs._op("close", self._path)
+            finally:
+                self._f.close()
 
     def __enter__(self):
         return self
@@ -115,7 +133,7 @@ class CrashFS:
     """interposes open-for-write, mkdir, rename/replace and remove below `base`.
 
     crash_at = None: record only.  crash_at = (k, 'before'): raise CrashNow instead of performing operation k.
-    crash_at = (k, 'half'): operation k must be a write; half of its bytes reach the disk, then CrashNow.
+    crash_at = (k, 'half'): operation k must be a flush (buffered bytes going to disk); half of them arrive, then CrashNow.
     After the crash every further mutation is refused, so clean-up code cannot alter the disk."""
 
     def __init__(self, base, crash_at=None):
@@ -123,6 +141,7 @@ class CrashFS:
         self.crash_at = crash_at
         self.ops = []
         self.targets = set()
+        self.notes = []
         self.crashed = False
         self.fired = False
         self._real_open = builtins.open
@@ -154,6 +173,10 @@ class CrashFS:
                 raise KeyboardInterrupt()
             return "half"
         return None
+
+    def _note(self, kind, path, n=0):
+        """an event without effect on the disk (kept for the record, never a crash point)"""
+        self.notes.append((kind, os.path.relpath(os.fsdecode(path), self.base), n))
 
     def open(self, file, mode="r", *a, **kw):
         if isinstance(file, (str, bytes, os.PathLike)) and any(c in mode for c in "wax+") and self._inside(file):
